@@ -2,14 +2,15 @@
    The same function is run extracted to OCaml (ocaml/driver.ml) and inside Coq (vm_compute).
    Each model contributes one line: its Entry module's [entry]. *)
 From DippyV Require Import Base.Str Base.Sx Entry.Common.
-From DippyV Require Entry.WalkerE Entry.LadderE.
+From DippyV Require Entry.WalkerE Entry.LadderE Entry.ConfigTextE.
 
 Definition run (orc : oracle) (inp : sx) : sx :=
   match inp with
   | L (A cmd :: args) =>
       first_some [
         Entry.WalkerE.entry orc cmd args;
-        Entry.LadderE.entry orc cmd args
+        Entry.LadderE.entry orc cmd args;
+        Entry.ConfigTextE.entry orc cmd args
       ]
   | _ => A $"?malformed-request"
   end.
